@@ -625,9 +625,12 @@ func (h *httpServerHandler) handleGet(ctx context.Context, w http.ResponseWriter
 	// Wait for connection to close
 	<-connCtx.Done()
 
-	// Clean up connection
+	// Clean up connection: remove the table entry only if it is still this connection. When a newer
+	// GET stream has replaced (and cancelled) this one, the entry belongs to the newer stream.
 	h.getSSEConnectionsLock.Lock()
-	delete(h.getSSEConnections, session.GetID())
+	if current, ok := h.getSSEConnections[session.GetID()]; ok && current == conn {
+		delete(h.getSSEConnections, session.GetID())
+	}
 	h.getSSEConnectionsLock.Unlock()
 	h.logger.Infof("GET SSE connection closed, session ID: %s", session.GetID())
 }
